@@ -215,11 +215,17 @@ pub struct DWorld {
 
 pub const PCI_BAR_ADDR: u64 = 0x8_0000_0000;
 
+thread_local! {
+    /// Maximum queue size reported by the devices that `DWorld::new` creates (64 unless a check
+    /// sets another value for the worlds it creates on this thread).
+    pub static MAX_QUEUE_SIZE: std::cell::Cell<u32> = const { std::cell::Cell::new(64) };
+}
+
 impl DWorld {
     /// Creates the device and installs the register world for the transport kind. The HAL must
     /// have been reset by the caller.
     pub fn new(kind: Kind, tkind: TKind, offered: u64, config: Vec<u8>) -> DWorld {
-        let mut d = VirtioDev::new(kind.device_type(), offered, kind.nqueues(), 64, config);
+        let mut d = VirtioDev::new(kind.device_type(), offered, kind.nqueues(), MAX_QUEUE_SIZE.with(|m| m.get()), config);
         d.legacy = tkind == TKind::MmioLegacy;
         let dev: DevRc = Rc::new(RefCell::new(d));
         let trace: Trace = Rc::new(RefCell::new(vec![]));
